@@ -105,7 +105,9 @@ def diagnose(W):
         # the same for a worker that died (in a task) around/after close(): it is not replaced either, and jobs
         # still queued for it are never run
         clean = (('exit', 0), ('exit', EX_RECYCLE)) if pc.get('maxtasksperchild') else (('exit', 0),)
-        died = [w for w in W.workers.values() if w['proc'].dead and w['proc'].status not in clean
+        # (a worker that leaves from inside a task died, whatever status it chose)
+        died = [w for w in W.workers.values() if w['proc'].dead and
+                (w['proc'].status not in clean or w['proc'].info.get('executing'))
                 and (w['proc'].death_time is None or w['proc'].death_time >= W.closed_at[1] - 0.85)
                 and not any(tc['t0'][0] <= (w['proc'].death_step or 0) for tc in W.term_calls)]
         live_n = W.marks.get('live_before_terminate', len(live))
@@ -892,7 +894,12 @@ def judge_C05(W, ex):
             # a job that ran longer than its limit (+ one scan) must not have been left alone
             if lim is not None and acc_t is not None and rec.first and pc.get('threads', True):
                 el = rec.first[1] - acc_t
-                if el > lim + 1.0 + 0.15 * len(W.jobs) + 0.05:
+                # (when the scanner itself is descheduled - th_preempt - the time it was kept off the processor is
+                # added to what "one scan period" allows)
+                off = 0.0
+                if W.case.get('th_preempt'):
+                    off = W.case['th_preempt'] * sum(1 for e in k.log if e[2] == 'line-stall')
+                if el > lim + 1.0 + 0.15 * len(W.jobs) + 0.05 + off:
                     bad('C05.a', 'limit-not-enforced', 'job %r resolved (%s) %.3fs after acceptance, limit %.2fs'
                         % (uid, tname or 'success', el, lim))
     W.subj('hard_limited_jobs', nlimited)
